@@ -187,7 +187,40 @@ func scenarioC06(x *runner.X) {
 			x.Probe(fmt.Sprintf("c06.batch-record-len-%d", boundary))
 		}
 	}
-	manyBatches := boundary == 0 && t.Bool(0.25)
+	// parked: an address fills exactly k batches, which the background writer parks, then gets a
+	// few more entries; enough other addresses are pending for the periodic partial flush, and a
+	// push lands on its trigger slot. The partial flush must leave that address alone, otherwise
+	// its newer entries are written ahead of the parked batches.
+	parked := boundary == 0 && t.Bool(0.15)
+	if parked {
+		pop := 100000 // the real population threshold: 100 001 pending addresses, a few seconds per run
+		if !real {
+			pop = t.Pick(3, 8)
+			knobs["gsfa.flushPopulation"] = pop
+			knobs["gsfa.flushMinValues"] = 100
+			knobs["gsfa.tmpBuf"] = 256
+			knobs["gsfa.chanCap"] = 50
+			knobs["gsfa.popRank"] = 10000
+		}
+		nAddr = pop + t.Range(2, 5)
+		kk := t.Range(1, 2)
+		for i := 0; i < kk*B; i++ {
+			pushes = append(pushes, c06push{e: mkEntry(), keys: []int{0}})
+		}
+		for i := t.Range(1, mini(B-1, 99)); i > 0; i-- {
+			pushes = append(pushes, c06push{e: mkEntry(), keys: []int{0}, pause: t.Pick(0, 1)})
+		}
+		for a := 1; a < nAddr; a++ {
+			pushes = append(pushes, c06push{e: mkEntry(), keys: []int{a}})
+		}
+		slot = (slot/500 + 1) * 500
+		pushes = append(pushes, c06push{e: mkEntry(), keys: []int{1 + t.Intn(nAddr-1)}, pause: t.Pick(0, 1)})
+		for i := t.Range(0, B+1); i > 0; i-- {
+			pushes = append(pushes, c06push{e: mkEntry(), keys: []int{t.Pick(0, 0, 1)}})
+		}
+		x.Probe("c06.parked-batch-then-partial-flush")
+	}
+	manyBatches := !parked && boundary == 0 && t.Bool(0.25)
 	if manyBatches {
 		// every push names all of 7..16 addresses, each address ends with 2..3 full batches and a
 		// remainder: more than a dozen batches of few addresses are in flight at once
@@ -208,7 +241,7 @@ func scenarioC06(x *runner.X) {
 		}
 		x.Probe("c06.many-batches")
 	}
-	if boundary == 0 && !manyBatches {
+	if boundary == 0 && !manyBatches && !parked {
 		others := t.Range(0, 3*B)
 		if real {
 			others = t.Range(0, 50)
@@ -336,7 +369,10 @@ func scenarioC06(x *runner.X) {
 		addrs = append(addrs, a)
 	}
 	sort.Ints(addrs)
-	for _, a := range addrs {
+	for i, a := range addrs {
+		if len(addrs) > 2000 && i > 50 && i%997 != 0 {
+			continue // a population of 100 000 one-entry addresses: the first 50 and a sample
+		}
 		want := model[a]
 		got, err := rd.Get(context.Background(), c06key(a), 1<<30)
 		if err != nil {
@@ -396,4 +432,11 @@ func clipS(s []string) string {
 		return strings.Join(s[:6], " ") + " ... " + strings.Join(s[len(s)-6:], " ") + fmt.Sprintf(" (%d)", len(s))
 	}
 	return strings.Join(s, " ")
+}
+
+func mini(a, b int) int {
+	if a < b {
+		return a
+	}
+	return b
 }
